@@ -280,7 +280,7 @@ func smallRequests() (basic, copymove []vfs.Req) {
 // Engine A variants: the same (state, request) pair under a renaming of the two names or another spelling of the
 // request paths.  The model is name-agnostic, so the expected outcome is the renamed expected outcome; the server
 // may not be (names that start with dots, that contain blanks or percent signs; a trailing slash).
-var aliasPairs = [][2]string{{"..b", "b"}, {"a", "..."}, {"a b", "a%41"}, {".a", "a."}, {"-", "é"}, {"n", "n.bak"}, {"ab", "a"}, {"a.html", "b"}, {"a", "b.html"}}
+var aliasPairs = [][2]string{{"..b", "b"}, {"a", "..."}, {"a b", "a%41"}, {".a", "a."}, {"-", "é"}, {"n", "n.bak"}, {"ab", "a"}, {"a.html", "b"}, {"a", "b.html"}, {".webdav-upload-1", "b"}, {"a", ".webdav-replaced-2"}} // the last two: names shaped like the server's own scratch entries are ordinary names (after C11-s15)
 
 var nVariants = len(aliasPairs) + 4
 
